@@ -13,7 +13,7 @@ import vp
 OVERLAY = os.path.join(vp.VERIF, "harness", "overlay", "core_consensus_qbft", "zz_verif_leader_test.go")
 
 HEADER = """From Coq Require Import List NArith Arith Bool.
-From Charon Require Import Common.Quorum Qbft.Model Qbft.Corr.
+From Charon Require Import Common.Quorum Qbft.Model Qbft.Monitor Qbft.Corr.
 Import ListNotations.
 Local Open Scope nat_scope.
 """
@@ -32,11 +32,13 @@ Definition c02_hits := Eval vm_compute in all_c02 cases.
 Definition c03_hits := Eval vm_compute in all_c03 cases.
 Definition c04u_hits := Eval vm_compute in all_c04u cases.
 Definition c04d_hits := Eval vm_compute in all_c04d cases.
+Definition m3_hits := Eval vm_compute in all_mon3 cases.
 Print rejects.
 Print c02_hits.
 Print c03_hits.
 Print c04u_hits.
 Print c04d_hits.
+Print m3_hits.
 """
 
 
@@ -70,15 +72,27 @@ def input_fingerprint():
     return hsh.hexdigest()[:20]
 
 
-def run(R, n_hist):
-    """Returns dict: ok(bool: pipeline ran), hs(list of histories), byid, rejects, c02, c03, c04u, c04d, qf_bad,
+def run_batch(R, n_hist, seed, tables):
+    """One harness invocation + evaluation.  Returns dict: ok(bool: pipeline ran), hs(list of histories), byid, rejects, c02, c03, c04u, c04d, qf_bad,
     leader_bad, broke(list of (name, detail))."""
-    res = {"broke": [], "hs": [], "byid": {}, "rejects": [], "c02": [], "c03": [], "c04u": [], "c04d": [],
+    res = {"broke": [], "hs": [], "byid": {}, "rejects": [], "c02": [], "c03": [], "c04u": [], "c04d": [], "m3": [],
            "qf_bad": [], "leader_bad": [], "leader_rows": 0, "cached": False}
     replay = os.environ.get("VERIF_REPLAY")
+    if replay:
+        # only replay files of this engine (a list of injected events) are for harness/qbft
+        try:
+            j = json.load(open(replay))
+            j = j.get("replay", j)
+            mine = isinstance(j, dict) and isinstance(j.get("events"), list)
+        except (OSError, ValueError):
+            mine = False
+        if not mine:
+            res["skipped"] = "replay file is not a qbft event list"
+            return res
     cache_key = None
-    if not replay and os.environ.get("VERIF_NO_CACHE") != "1":
-        cache_key = "%s-%d-%d" % (input_fingerprint(), R.seed, n_hist)
+    # result cache shared by the three checks: off unless asked for (a check always re-runs harness and model by default)
+    if not replay and os.environ.get("VERIF_QBFT_CACHE") == "1" and vp.REPO == "/repo":
+        cache_key = "%s-%d-%d" % (input_fingerprint(), seed, n_hist)
         cp = os.path.join(vp.WORK, "qbft_cache_%s.json" % cache_key)
         if os.path.exists(cp):
             try:
@@ -89,7 +103,7 @@ def run(R, n_hist):
             except (OSError, ValueError):
                 pass
 
-    env = {"VERIF_N": n_hist}
+    env = {"VERIF_N": n_hist, "VERIF_SEED": seed}
     if replay:
         env["VERIF_REPLAY"] = replay
     rc, out, od = vp.go_harness("qbft", env_extra=env, outdir=os.path.join(vp.WORK, "qbft_%s" % ("replay" if replay else R.pid)))
@@ -106,7 +120,7 @@ def run(R, n_hist):
 
     # quorum and leader tables
     extra = ""
-    if not replay:
+    if not replay and tables:
         qf = json.load(open(os.path.join(od, "qbft_qf.json")))
         extra += "Definition qf_bad := Eval vm_compute in qf_mismatch %d [%s].\nPrint qf_bad.\n" % (
             len(qf), "; ".join("(%d, %d)" % (a, b) for a, b in qf))
@@ -156,6 +170,7 @@ def run(R, n_hist):
         res["c03"] += nums(vp.parse_marked(out, "c03_hits"))
         res["c04u"] += nums(vp.parse_marked(out, "c04u_hits"))
         res["c04d"] += nums(vp.parse_marked(out, "c04d_hits"))
+        res["m3"] += nums(vp.parse_marked(out, "m3_hits"))
     if cache_key and not res["broke"]:
         try:
             dump = dict(res)
@@ -165,6 +180,46 @@ def run(R, n_hist):
         except OSError:
             pass
     return res
+
+
+BATCH = 1000
+
+
+def run(R, n_hist):
+    """Runs the harness in batches of at most BATCH histories (bounded memory), batch k > 0 with seed
+    seed*1000+k; history ids are made global (batch*BATCH + local id).  Full traces are kept only for
+    histories some check points at."""
+    total = {"broke": [], "hs": [], "byid": {}, "rejects": [], "c02": [], "c03": [], "c04u": [], "c04d": [], "m3": [],
+             "qf_bad": [], "leader_bad": [], "leader_rows": 0}
+    k, left = 0, n_hist
+    while left > 0:
+        nb = min(BATCH, left)
+        res = run_batch(R, nb, R.seed if k == 0 else R.seed * 1000 + k, k == 0)
+        off = k * BATCH
+        total["broke"] += res["broke"]
+        for key in ("rejects", "c03", "c04u", "c04d", "m3"):
+            total[key] += [[x[0] + off] + list(x[1:]) for x in res[key]]
+        total["c02"] += [x + off for x in res["c02"]]
+        if k == 0:
+            for key in ("qf_bad", "leader_bad", "leader_rows"):
+                total[key] = res.get(key, total[key])
+            if res.get("skipped"):
+                total["skipped"] = res["skipped"]
+        pointed = {x[0] for key in ("rejects", "c03", "c04u", "c04d", "m3") for x in res[key]} | set(res["c02"])
+        for h in res["hs"]:
+            h["nlabels"] = len(h["trace"])
+            h["digest"] = vp.digest(h["events"])
+            lid = h["id"]
+            h["id"] = lid + off
+            h["seed"] = R.seed if k == 0 else R.seed * 1000 + k
+            if n_hist > BATCH and lid not in pointed and not (h["kind"] == "cluster-timely" and h["nodes"] >= 4 and k == 0):
+                h["trace_head"] = h["trace"][:12]
+                h["trace"], h["events"] = None, None
+            total["hs"].append(h)
+        k += 1
+        left -= nb
+    total["byid"] = {h["id"]: h for h in total["hs"]}
+    return total
 
 
 def own_label_index(h, pid, k):
@@ -180,7 +235,7 @@ def own_label_index(h, pid, k):
 
 def replay_obj(h, upto=None):
     evs = h["events"] if upto is None else h["events"][:upto + 1]
-    return {"nodes": h["nodes"], "fifo": h["fifo"], "off": h["off"], "expect": h.get("expect") or [],
+    return {"seed": h.get("seed"), "nodes": h["nodes"], "fifo": h["fifo"], "off": h["off"], "expect": h.get("expect") or [],
             "cmpmix": h.get("cmpmix", False), "events": evs, "kind": h.get("kind"),
             "how": "./check <C02|C03|C04> --replay <this file> re-executes these events against /repo's qbft.Run"}
 
@@ -192,11 +247,11 @@ def coverage(R, res):
     nlabels = 0
     for h in hs:
         kinds[h["kind"]] = kinds.get(h["kind"], 0) + 1
-        nlabels += len(h["trace"])
+        nlabels += h.get("nlabels", 0)
         for k, v in (h.get("stats") or {}).items():
             stats[k] = stats.get(k, 0) + v
         if any(k.startswith("rule:") and v > 0 for k, v in (h.get("stats") or {}).items()):
-            seen.add(vp.digest(h["events"]))
+            seen.add(h.get("digest"))
     R.coverage["evaluations"] = len(hs)
     R.coverage["distinct_nontrivial"] = len(seen)
     R.coverage["rule"] = ("executions of the real core/qbft.Run inside testing/synctest, one injected event at a time "
@@ -208,7 +263,7 @@ def coverage(R, res):
     R.coverage["input_distribution"] = {"kinds": kinds, "labels_total": nlabels, "observed": dict(sorted(stats.items())),
                                         "quorum_table_n": 200, "wrapper_leader_rows": res.get("leader_rows", 0)}
     R.coverage["traces_validated_against_impl"] = len(hs)
-    ex = next((h for h in hs if h["kind"] == "cluster-timely" and h["nodes"] >= 4), None)
+    ex = next((h for h in hs if h["kind"] == "cluster-timely" and h["nodes"] >= 4 and h.get("trace")), None)
     if ex:
         R.add_samples([{"kind": ex["kind"], "nodes": ex["nodes"], "first_labels": ex["trace"][:12]}], 1)
 
@@ -217,7 +272,7 @@ def report_common(R, res, which):
     """Correspondence failures and table mismatches are common to the three checks."""
     for name, detail in res["broke"]:
         R.broke(name, detail)
-    hit = {"C02": set(res["c02"]), "C03": {x[0] for x in res["c03"]},
+    hit = {"C02": set(res["c02"]), "C03": {x[0] for x in res["c03"]} | {x[0] for x in res["m3"]},
            "C04": {x[0] for x in res["c04u"]} | {x[0] for x in res["c04d"]}}[which]
     for cid, pid, k in res["rejects"]:
         if cid in hit:
